@@ -102,6 +102,8 @@ class Wrapp(util.WrapperMixin):
         self.need_numpy = False
         self.enum_impl = []
         self.module_init_decls = []
+        self.capsule_code = {}
+        self.capsule_order = []
         self.need_blah = False
         self.header_type_include = util.Header(newlibrary)  # header files in module header
         self.shared_helper = {} # All accumulated helpers
@@ -2826,9 +2828,6 @@ extern PyObject *{PY_prefix}error_obj;
                 "PyCapsule_GetContext(cap));", fmt)
         output.append("context->dtor(ptr);")
         output.append("-}")
-
-    capsule_code = {}
-    capsule_order = []
 
     def add_capsule_code(self, name, lines):
         """Add unique names to capsule_code.
